@@ -60,9 +60,15 @@ def mode_data(draw, ten=False, max_pages=3, min_pages=1):
 IQN_CHARS = string.ascii_lowercase + string.digits + ".-:"
 
 
+UTF8_CHARS = IQN_CHARS + "\u00e4\u00f6\u00fc\u00e9\u00f1\u4e2d\u6587\u0434"  # iSCSI names are UTF-8 (RFC 3720/3722)
+
+
 def iscsi_name(max_len=223):
-    return st.integers(1, max_len).flatmap(
-        lambda n: st.text(alphabet=IQN_CHARS, min_size=n, max_size=n))
+    """iSCSI names of every length; one in five contains non-ASCII (UTF-8 multi-byte) characters,
+    bounded so that the encoded name still fits the 223-byte limit."""
+    ascii_ = st.integers(1, max_len).flatmap(lambda n: st.text(alphabet=IQN_CHARS, min_size=n, max_size=n))
+    utf8 = st.integers(1, max(1, max_len // 3)).flatmap(lambda n: st.text(alphabet=UTF8_CHARS, min_size=n, max_size=n))
+    return st.one_of(ascii_, ascii_, ascii_, ascii_, utf8)
 
 
 @st.composite
